@@ -113,6 +113,8 @@ type Section struct {
 	Outcomes    map[string]int64 `json:"outcomes,omitempty"`
 	Bound       string `json:"bound,omitempty"`
 	Exhaustive  bool   `json:"exhaustive"`
+	WallS       float64 `json:"worker_wall_s_max,omitempty"` // max over workers of (last - first) evaluation time in this section
+	first, last time.Time
 }
 
 func (c *Ctx) Quick() bool    { return c.Tier != "thorough" }
@@ -209,6 +211,14 @@ func (c *Ctx) Outcome(sec, outcome string) {
 	c.mu.Lock()
 	s.Evaluations++
 	s.Outcomes[outcome]++
+	if s.Evaluations&1023 == 1 {
+		now := time.Now()
+		if s.first.IsZero() {
+			s.first = now
+		}
+		s.last = now
+		s.WallS = s.last.Sub(s.first).Seconds()
+	}
 	c.mu.Unlock()
 	c.evals.Add(1)
 }
@@ -461,6 +471,9 @@ func ParentMain(id, tier string, seed int64) int {
 				m.Outcomes[k] += v
 			}
 			m.Exhaustive = m.Exhaustive && s.Exhaustive
+			if s.WallS > m.WallS {
+				m.WallS = s.WallS
+			}
 			if m.Bound == "" {
 				m.Bound = s.Bound
 			}
